@@ -177,6 +177,7 @@ def analyse(meta, run, gen_path):
         failures.append({"obligation": name, "kind": kind, "fn": fn_name, "fn_tags": f["tags"] if f else [],
                          "tags": sorted(set(t for t in tags if t.startswith("C"))), "message": msg, "clause": clause,
                          "at": loc, "code": text, "in_template": f is None,
+                         "fn_skipped_optional": bool(f and f.get("skipped_optional")),
                          "rendered": d.get("rendered", "")[:3000]})
     # per-function results
     functions = []
